@@ -93,7 +93,7 @@ package diam
 //@   requires a != nil && dictionary != nil && pwf(dictionary)
 //@   modifies a.*
 //@   ensures short: len(data) < 8 ==> err != nil
-//@   ensures [C01 C02] hdr: err == nil ==> a.Code == be32(data, 0) && a.Flags == data[4] && a.Length == int(be24(data, 5))
+//@   ensures [C01 C02 C04] hdr: err == nil ==> a.Code == be32(data, 0) && a.Flags == data[4] && a.Length == int(be24(data, 5))
 //@   ensures [C04] bounds: err == nil ==> hdrlen(a.Flags) <= a.Length && a.Length <= len(data)
 //@   ensures [C01 C02] vendor: err == nil && a.Flags & 0x80 == 0x80 ==> a.VendorID == be32(data, 8)
 //@   ensures data_ok: err == nil ==> a.Data != nil && valid(a.Data)
@@ -117,7 +117,7 @@ package diam
 //@   modifies
 //@   ensures nonnil: a != nil && fresh(a)
 //@   ensures short: len(data) < 8 ==> err != nil
-//@   ensures [C01 C02] hdr: err == nil ==> a.Code == be32(data, 0) && a.Flags == data[4] && a.Length == int(be24(data, 5))
+//@   ensures [C01 C02 C04] hdr: err == nil ==> a.Code == be32(data, 0) && a.Flags == data[4] && a.Length == int(be24(data, 5))
 //@   ensures [C04] bounds: err == nil ==> hdrlen(a.Flags) <= a.Length && a.Length <= len(data)
 //@   ensures [C01 C02] vendor: err == nil && a.Flags & 0x80 == 0x80 ==> a.VendorID == be32(data, 8)
 //@   ensures data_ok: err == nil ==> a.Data != nil && valid(a.Data)
